@@ -5324,7 +5324,7 @@ Error Assembler::align(AlignMode align_mode, uint32_t alignment) {
       uint32_t pattern = kNopA64;
 
       if (ASMJIT_UNLIKELY(offset() & 0x3u)) {
-        return make_error(Error::kInvalidState);
+        return report_error(make_error(Error::kInvalidState));
       }
 
       while (i >= 4) {
